@@ -276,3 +276,9 @@ def run(ctx):
     # the list holds the regions of THIS request only: descriptors recorded by an earlier (possibly aborted) request are cleared before
     # anything is recorded (same rule instance as C19/stale-field, C01/one-flush-owner)
     c19.rule_stale_field(ctx, rule="C07/no-stale-regions", only=("memory_blocks",))
+    # "every non-empty thread stack appears as a region": the stack must be FOUND first (same rule instances as C06/plausible-stack,
+    # C06/find-mapping, C06/page-start)
+    from rules import c06
+    c06.rule_plausible_stack(ctx, R="C07/stack-found/plausible")
+    c06.rule_find_mapping(ctx, R="C07/stack-found/lookup")
+    c06.rule_page_start(ctx, R="C07/stack-found/page-start")
